@@ -10,7 +10,7 @@ import numpy as np
 
 from .. import canon as cn
 from .. import hist, ops, synth
-from ..core import Report, V, pmap, chunks
+from ..core import Report, V, pmap, chunks, shuffled
 
 PROP = "C10"
 LEVEL = "model_checking"
@@ -270,6 +270,8 @@ def _pure_case(case):
     from nanite.rate import IndentationRater
     from nanite.rate.features import IndentationFeatures
     kind = case["kind"]
+    if kind == "funcseq":
+        return _funcseq_case(case)
     out = []
 
     def viol(what, detail):
@@ -383,6 +385,110 @@ def _pure_case(case):
     return out
 
 
+FS_CALLS = ("M", "R0", "R5")
+FS_EDITS = ("EX", "EY", "EP", "EC", "ER")
+
+
+def _funcseq_run(case, alias):
+    """one pass of a call/edit sequence on the model and residual functions
+    of a registered model.  alias=True: the caller keeps ONE parameter set,
+    abscissa and force array (and the array returned last) and edits them
+    in place; alias=False: every call gets fresh equal-valued objects."""
+    import copy as _copy
+    from nanite import model as nmodel
+    md = nmodel.models_available[case["model"]]
+    P = md.get_parameter_defaults()
+    P["contact_point"].set(value=1e-7)
+    x = np.linspace(1e-6, -1e-6, 50)
+    if case["ascending"]:
+        x = x[::-1].copy()
+    y = np.random.RandomState(5).normal(0, 1e-10, 50) + 1e-10
+    last = None
+    results = []
+    mutated = []
+    ekey = "E" if "E" in P else [k for k in P if k.startswith("E")][0]
+    for op in case["seq"]:
+        if op == "EX":
+            x -= 4e-7
+        elif op == "EY":
+            y *= 2
+        elif op == "EP":
+            P[ekey].set(value=P[ekey].value * 2)
+        elif op == "EC":
+            P["contact_point"].set(value=P["contact_point"].value + 1.5e-7)
+        elif op == "ER":
+            if last is not None:
+                last += 1.0
+        else:
+            if alias:
+                aP, ax, ay = P, x, y
+            else:
+                aP, ax, ay = _copy.deepcopy(P), x.copy(), y.copy()
+            d0 = (cn.digest(aP), cn.digest(ax), cn.digest(ay))
+            if op == "M":
+                r = md.model(aP, ax)
+            else:
+                r = md.residual(aP, ax, ay, 0 if op == "R0" else 5e-7)
+            if (cn.digest(aP), cn.digest(ax), cn.digest(ay)) != d0:
+                mutated.append(op)
+            if alias and (np.shares_memory(r, ax) or np.shares_memory(r, ay)):
+                mutated.append(op + ":shares-memory")
+            results.append(np.array(r, copy=True))
+            if alias:
+                last = r
+    return results, mutated
+
+
+def _funcseq_case(case):
+    from .. import state
+    out = []
+    state.restore()
+    ra, mut = _funcseq_run(case, alias=True)
+    state.restore()
+    rv, _ = _funcseq_run(case, alias=False)
+    wit = f"{case['model']}:{'asc' if case['ascending'] else 'desc'}"
+    for m in mut:
+        out.append(V(PROP, "argument-mutated", site="model-functions",
+                     witness=f"{wit}:{m}", detail="a model/residual call "
+                     f"modified or aliased its arguments in {case['seq']}",
+                     case=case, kind="pure"))
+    for i, (a, b) in enumerate(zip(ra, rv)):
+        if a.shape != b.shape or not np.array_equal(a, b, equal_nan=True):
+            calls = [o for o in case["seq"] if o in FS_CALLS]
+            out.append(V(PROP, "alias-differs-from-twin",
+                         site="model-functions",
+                         witness=f"{wit}:{calls[i]}#{i}",
+                         detail=f"sequence {case['seq']}: call {i} "
+                         f"({calls[i]}) on the caller's long-lived, in-place "
+                         "edited objects differs from the same call with "
+                         "fresh equal-valued objects (max |d| = "
+                         f"{float(np.nanmax(np.abs(a - b))) if a.shape == b.shape else 'shape'})",
+                         case=case, kind="pure"))
+            break
+    return out
+
+
+def funcseq_cases(tier):
+    import itertools
+    from nanite import model as nmodel
+    depth = 4 if tier == "quick" else 5
+    alpha = FS_CALLS + FS_EDITS
+    cases = []
+    for mk in sorted(nmodel.models_available):
+        if mk == "sneddon_spher":
+            continue
+        for asc in (False, True):
+            for n in range(2, depth + 1):
+                for seq in itertools.product(alpha, repeat=n):
+                    if seq[-1] not in FS_CALLS or seq[0] not in FS_CALLS:
+                        continue
+                    if not any(o in FS_EDITS for o in seq):
+                        continue
+                    cases.append({"kind": "funcseq", "model": mk,
+                                  "ascending": asc, "seq": list(seq)})
+    return cases
+
+
 def pure_cases():
     from nanite import poc
     from nanite import model as nmodel
@@ -451,6 +557,16 @@ def run(tier):
             n += 1
             rep.extend(vs)
     rep.set("pure_entry_point_cases", n)
+    # call/edit sequences on the model and residual functions
+    fcases = funcseq_cases(tier)
+    nf = 0
+    for res in pmap(_pure_work, chunks(shuffled(fcases), 100)):
+        for c, vs in res:
+            nf += 1
+            rep.extend(vs)
+    rep.set("model_function_sequences", nf)
+    rep.add("transitions", nf)
+    rep.add("traces_validated_against_impl", nf)
     rep.add("traces_validated_against_impl", n)
     rep.set("exhaustive", True)
     rep.set("bounds", dict(plan))
